@@ -30,6 +30,8 @@ import warnings
 import common
 
 sys.path.insert(0, os.path.dirname(os.path.abspath(__file__)))
+import c15_compile  # noqa: E402
+import c15_errline  # noqa: E402
 import c15_gen   # noqa: E402
 import c15_pool  # noqa: E402
 
@@ -99,6 +101,9 @@ PROBES = [
     ("MemoryError", "builtins:MemoryError"),
     ("UnicodeDecodeError", "builtins:UnicodeDecodeError"),
     ("OSError", "builtins:OSError"),
+    ("ValueError", "builtins:ValueError"),
+    ("UnicodeEncodeError", "builtins:UnicodeEncodeError"),
+    ("IndexError", "builtins:IndexError"),
     ("KeyboardInterrupt", "builtins:KeyboardInterrupt"),
     ("SystemExit", "builtins:SystemExit"),
     ("GeneratorExit", "builtins:GeneratorExit"),
@@ -284,7 +289,7 @@ def generate_v():
   out.append("(* GENERATED on every run by harness/props/c15.py from /repo/pytype/{pyc/opcodes.py,vm.py,tracer_vm.py,io.py},")
   out.append("   pycnite's opcode tables and the live exception classes.  Do not edit, do not commit. *)")
   out.append("From Coq Require Import String.")
-  out.append("From Coq Require Import List Bool.")
+  out.append("From Coq Require Import List Bool NArith.")
   out.append("From PV Require Import Io.Model.")
   out.append("Import ListNotations.")
   out.append("Local Open Scope string_scope.")
@@ -314,7 +319,13 @@ def generate_v():
   out.append("Definition outcome (ev : event) (nofail check : bool) : outcome :=")
   out.append("  outcome_of subclass_matrix except_chain ev nofail check.")
   out.append("")
-  info = {"rows": rows, "intrinsics": intr, "clauses": [(d, a, at) for _, d, a, at in clauses],
+  try:
+    cinfo = c15_compile.translate_compile()
+  except c15_compile.TranslatorError as e:
+    raise TranslatorError(str(e))
+  out.extend(c15_compile.coq_lines(cinfo))
+  out.append("")
+  info = {"compile": cinfo, "rows": rows, "intrinsics": intr, "clauses": [(d, a, at) for _, d, a, at in clauses],
           "universe": universe, "ids": ids, "clause_objs": clauses}
   return "\n".join(out), info
 
@@ -351,6 +362,8 @@ def make_exception(key, cls, line, attr):
     return cls("parser error", lines=["x"] * (line + 1), raw_line=line, raw_column=0)
   if cls is UnicodeDecodeError:
     return cls("utf8", b"\xff", 0, 1, "invalid start byte")
+  if cls is UnicodeEncodeError:
+    return cls("utf-8", "\udce9", 0, 1, "surrogates not allowed")
   if key in ("Exception0",):
     return Exception()
   try:
@@ -574,6 +587,9 @@ def correspondence_lines(res, r, n_cases):
 # =========================================================================================
 # search: oracle on real runs
 
+# opcodes CPython 3.12 emits with line 0 (function/generator prologue): they never are the current opcode of an error
+PROLOGUE_OPS = {"RESUME", "RETURN_GENERATOR", "POP_TOP", "COPY_FREE_VARS", "MAKE_CELL"}
+
 DOCUMENTED_CONSTANT_ERRORS = ("Value after * must be an iterable", "Value after ** must be an mapping", "TypeError: ")
 
 
@@ -679,6 +695,22 @@ def judge(src, r, stats=None):
   errs = r["errors"]
   nl = file_lines(seen)
   viol = []
+  if stats is not None:
+    # monitored hypotheses of logged_line_in_file: every opcode line and every function-range end is a line of the file
+    ops, fr = r.get("ops"), r.get("fr")
+    if ops and ops[0] and nl > 0:
+      stats["programs_with_opcodes_monitored"] += 1
+      stats["opcodes_monitored"] += ops[0]
+      for nm in ops[3]:
+        stats["line0:" + nm] += 1
+      if (ops[1] is not None and not (1 <= ops[1] and ops[2] <= nl)) or not set(ops[3]) <= PROLOGUE_OPS:
+        stats["opcode_line_outside_file"] += 1
+        stats.setdefault("_mon_bad", []).append(f"opcode lines {ops[1]}..{ops[2]}, line 0 on {ops[3]} in a {nl}-line text: {seen[:200]!r}")
+    if fr and fr[0]:
+      stats["function_ranges_monitored"] += fr[0]
+      if not (1 <= fr[1] and fr[2] <= nl):
+        stats["function_range_end_outside_file"] += 1
+        stats.setdefault("_mon_bad", []).append(f"function range ends {fr[1]}..{fr[2]} in a {nl}-line text: {seen[:200]!r}")
   cerrs = [e for e in errs if e[0] == "python-compiler-error"]
   if verdict[0] == "syntax":
     cat = "compile-error"
@@ -1025,6 +1057,11 @@ def search(res, r, thorough):
   res.extra["opcode_coverage_3_12"] = {
       "in_table": len(table312), "exercised": len(explored_ops & table312),
       "never_generated": sorted(table312 - explored_ops)}
+  mon_bad = line_stats.pop("_mon_bad", [])
+  res.obligation("monitor:opcode-lines-and-function-range-ends-inside-file",
+                 not mon_bad and line_stats.get("opcodes_monitored", 0) > 0,
+                 f"{len(mon_bad)} analysed programs break the hypothesis: {mon_bad[:2]}" if mon_bad else
+                 f"opcodes monitored: {line_stats.get('opcodes_monitored', 0)}")
   n_reported = 0
   for fp, (what, jid) in found.items():
     _, kind, src, meta = by_id[jid]
@@ -1115,6 +1152,25 @@ def run(res):
   timing["chain"] = round(time.time() - t, 1); t = time.time()
   correspondence_lines(res, common.rng(res.seed, "c15-lines"), 1500 if thorough else 400)
   timing["lines"] = round(time.time() - t, 1); t = time.time()
+  try:
+    cinfo = info["compile"] if info is not None else c15_compile.digit_table()
+  except c15_compile.TranslatorError:
+    cinfo = None
+  if cinfo is not None:
+    # (a) the compile-error path: messages, the compile step, the producer, real uncompilable sources.  After a
+    # translator failure the legs still run (against the last generated tables) so that the direct oracles can
+    # produce a concrete failing input.
+    info = dict(info or {}, compile=cinfo)
+    batch = c15_compile.Batch()
+    c15_compile.correspondence_init(res, common.rng(res.seed, "c15-ceinit"), 4000 if thorough else 300, info["compile"], batch)
+    c15_compile.correspondence_pipeline(res, common.rng(res.seed, "c15-pipeline"), info["compile"], batch)
+    c15_compile.correspondence_syntax_str(res, common.rng(res.seed, "c15-syntaxstr"), 1500 if thorough else 150, batch)
+    c15_compile.correspondence_real_sources(res, common.rng(res.seed, "c15-realsrc"), 1500 if thorough else 150,
+                                            300 if thorough else 24, info["compile"], batch)
+    # (b) the line a logged error carries
+    c15_errline.correspondence(res, common.rng(res.seed, "c15-errline"), 1500 if thorough else 200, batch)
+    batch.run(res)
+  timing["compile-path"] = round(time.time() - t, 1); t = time.time()
   search(res, r, thorough)
   timing["search+minimise"] = round(time.time() - t, 1)
   res.extra["timing_s"] = timing
@@ -1129,6 +1185,12 @@ def run(res):
 def replay(res, path):
   d = json.load(open(path))
   rp = d["replay"]
+  if str(rp.get("kind", "")).startswith("compile-"):
+    return c15_compile.replay(rp)
+  if rp.get("kind") == "errline":
+    return c15_errline.replay(rp)
+  if rp.get("kind") == "opcode-lines":
+    print("monitored hypothesis failed (not by itself a violation of the property):", d.get("what"))
   src = rp["src"]
   rr = c15_pool.run_jobs([{"id": "replay", "src": src, "check": rp.get("check", False), "entry": "cogp"}], 1, 120, tag="replay")["replay"]
   cat, viol = judge(src, rr)
